@@ -202,6 +202,20 @@ class Analyzer3:
                 self.do_call(ev.node, st, record)
         return st
 
+    def span_position(self, rhs, st):
+        """key X when rhs is X + strlen(X) / X + strcspn(X, ..) / X + strspn(X, ..) for a tracked in-string cursor X: a position
+        inside the same string (on its terminator or on a byte of / outside the set)"""
+        r = strip_casts(rhs)
+        if r.get('k') != 'bin' or r['op'] != '+':
+            return None
+        for (x, y) in ((r['l'], r['r']), (r['r'], r['l'])):
+            y0 = strip_casts(y)
+            pn = self.norm(x)
+            if pn and pn[1] >= 0 and y0.get('k') == 'call' and callee_name(y0) in ('strlen', 'strcspn', 'strspn') and y0['args'] and \
+                    self.norm(y0['args'][0]) == pn and pn[0] in self.tracked and st.nz.get(pn[0], NEG) >= pn[1]:
+                return pn[0]
+        return None
+
     def search_result(self, rhs, st):
         """n when rhs is strstr(p, "lit") / strchr(p, c) / strpbrk(p, "set") on a tracked in-string cursor p: the result is NULL or
         points at n non-terminator bytes of the same string"""
@@ -229,6 +243,10 @@ class Analyzer3:
         if sr is not None and name in self.readkeys:
             self.tracked.add(name)
             st.pend[name] = sr
+            return
+        if self.span_position(rhs, st) is not None and name in self.readkeys:
+            self.tracked.add(name)
+            st.nz[name] = 0
             return
         pn = self.norm(rhs)
         if pn and pn[0] in self.tracked and name in self.readkeys:
@@ -267,6 +285,13 @@ class Analyzer3:
                 if sr is not None and key in self.readkeys:
                     self.tracked.add(key)
                     st.pend[key] = sr
+                    return
+                if self.span_position(a['r'], st) is not None and key in self.readkeys:
+                    self.tracked.add(key)
+                    st.nz[key] = 0
+                    if key.startswith('*') and record:
+                        self.site('BND3', a, 'cursor handed back through %s is a position inside the string' % key, True,
+                                  'the end of a span of the same string', 'handback:%s' % key)
                     return
                 pn = self.norm(a['r'])
                 if key.startswith('*') and key in self.tracked and record:
@@ -593,8 +618,8 @@ def _run(u, names, R, floor):
 
 
 def bnd3_minify(units, R):
-    _run(units['cJSON.c'], MINIFY, R, 25)
+    _run(units['cJSON.c'], MINIFY, R, 12)
 
 
 def bnd3_pointer(units, R):
-    _run(units['cJSON_Utils.c'], POINTER, R, 30)
+    _run(units['cJSON_Utils.c'], POINTER, R, 15)
